@@ -160,8 +160,15 @@ where
 
 	/// Trims from the start of the capture buffer so the next chunk will begin
 	/// at the specified reader offset.
-	fn trim_to_offset(&mut self, offset: u64) {
-		let trim_len = usize::try_from(offset - self.captured_start_offset).unwrap();
+	fn trim_to_offset(&mut self, mut offset: u64) {
+		let mut trim_len = usize::try_from(offset - self.captured_start_offset).unwrap();
+		// An implicit document starts at its first token, which may be indented.
+		// Keep that indentation in the chunk: block structure depends on the
+		// columns of the first line relative to the lines that follow it.
+		while trim_len > 0 && self.captured[trim_len - 1] == b' ' {
+			trim_len -= 1;
+			offset -= 1;
+		}
 		self.captured_start_offset = offset;
 		self.captured.drain(..trim_len);
 	}
